@@ -375,6 +375,9 @@ class RedInfo:
 
 def reduce_minmax(E, kind, t, dims, keepdim, node=None):
     rank = len(t.shape)
+    if rank == 0:
+        # the maximum of a single element is that element
+        return STensor(t.dtype, [], t.snap(), device=t.device, fresh=True)
     if dims is None:
         dims = list(range(rank))
     dims = sorted({(d + rank) if d < 0 else d for d in dims})
